@@ -145,13 +145,13 @@ FDiv(a, b) ==
 IntInfo(x) ==
   IF x.k # "fin" THEN [int |-> FALSE, odd |-> FALSE, n |-> 0, big |-> FALSE]
   ELSE IF x.m = <<>> THEN [int |-> TRUE, odd |-> FALSE, n |-> 0, big |-> FALSE]
-  ELSE IF x.e >= 0 THEN (IF x.e = 0 /\ MCmp(x.m, <<64>>) <= 0
+  ELSE IF x.e >= 0 THEN (IF x.e = 0 /\ MCmp(x.m, <<2000>>) <= 0
                          THEN [int |-> TRUE, odd |-> MIsOdd(x.m), n |-> (IF x.neg THEN 0 - x.m[1] ELSE x.m[1]), big |-> FALSE]
                          ELSE [int |-> TRUE, odd |-> (x.e = 0 /\ MIsOdd(x.m)), n |-> 0, big |-> TRUE])
   ELSE IF 0 - x.e > 60 THEN [int |-> FALSE, odd |-> FALSE, n |-> 0, big |-> FALSE]    \* m < 2^53: cannot have that many trailing zeros... unless subnormal-range: not an integer
   ELSE LET qr == MDivMod(x.m, TwoM(0 - x.e)) IN
        IF qr[2] # <<>> THEN [int |-> FALSE, odd |-> FALSE, n |-> 0, big |-> FALSE]
-       ELSE IF MCmp(qr[1], <<64>>) <= 0
+       ELSE IF MCmp(qr[1], <<2000>>) <= 0
             THEN [int |-> TRUE, odd |-> MIsOdd(qr[1]), n |-> (IF x.neg THEN 0 - qr[1][1] ELSE qr[1][1]), big |-> FALSE]
             ELSE [int |-> TRUE, odd |-> MIsOdd(qr[1]), n |-> 0, big |-> TRUE]
 
@@ -189,8 +189,8 @@ FPow(a, b) ==
          (LET n == IF ib.n < 0 THEN 0 - ib.n ELSE ib.n
               me == NormM(a.m, a.e)
               neg == a.neg /\ ib.odd
-          IN IF MBitLen(me[1]) * n > 200 THEN ROpen
-             ELSE LET p == MPowN(me[1], n)
+          IN IF me[1] # MOne /\ MBitLen(me[1]) * n > 200 THEN ROpen             \* (a power of two to any such power is decided)
+             ELSE LET p == IF me[1] = MOne THEN MOne ELSE MPowN(me[1], n)
                       r == IF ib.n > 0 THEN RoundQ(neg, p, MOne, me[2] * n) ELSE RoundQ(neg, MOne, p, 0 - me[2] * n)
                   IN IF r.inexact THEN ROpen ELSE RBits(r))
   ELSE ROpen
